@@ -36,6 +36,7 @@ func init() {
 		Assumptions:    []string{"process-crash model: the kernel keeps completed system calls; power-loss effects (torn or lost writes, fsync ordering) are outside the property and not injected", "each operation performs exactly one persistence write, so the recovered state is exact, not a set"},
 		NotInjected:    []string{"torn or lost writes after power loss", "fsync ordering", "disk full / short writes / EIO", "real SIGKILL of an OS process (not replayable; the reachable post-crash disk states are exactly the system-call boundaries enumerated here)"},
 		RequiredProbes: []string{"c05.fork.report.before-write", "c05.fork.report.after-write", "c05.fork.auth.after-write", "c05.fork.stats.before-write", "c05.fork.stats.after-write", "c05.fork.gcakey.before-write", "c05.fork.keys.created", "c05.fork.empty-gcakey", "c05.fork.boundary", "c05.fork.conflict", "c05.register-after-crash"},
+		RequiredSites:  []string{"report.before-write", "report.after-write", "auth.before-write", "auth.after-write", "gcakey.before-write", "gcakey.after-write", "stats.before-write", "stats.after-write", "keys.created", "keys.written", "migrate.before-shift", "migrate.after-shift"},
 	})
 }
 
